@@ -101,12 +101,20 @@ package ports
 //@ ghost var pxEndpoints []*domain.Endpoint
 //@ ghost var pxPath string
 //@ ghost var pxBody int
-//@ interface ProxyService.ProxyRequestToEndpoints
-//@   modifies gvar pxCalls, gvar pxEndpoints, gvar pxPath, gvar pxBody, object w, object stats, ghost(w).started, ghost(w).status, ghost(w).hdr[all], ghost remaining, ghost backing
+// pxErr / pxStarted: what the engine returned and whether it had started the client's response by then. An engine
+// that gives up before the response has started leaves the response headers alone (proved for both engines'
+// ProxyRequestToEndpointsWithRetry, which these methods delegate to), so the handler can still answer.
+//@ ghost var pxErr error
+//@ ghost var pxStarted bool
+//@ interface ProxyService.ProxyRequestToEndpoints(ctx, w, r, endpoints, stats, rlog)
+//@   modifies gvar pxCalls, gvar pxEndpoints, gvar pxPath, gvar pxBody, gvar pxErr, gvar pxStarted, object w, object stats, ghost(w).started, ghost(w).status, ghost(w).hdr[all], ghost remaining, ghost backing
 //@   records pxCalls = old(pxCalls) + 1
 //@   records pxEndpoints = endpoints
 //@   records pxPath = r.URL.Path
 //@   records pxBody = old(ghost(r.Body).remaining)
+//@   records pxErr = res
+//@   records pxStarted = ghost(w).started
+//@   ensures !ghost(w).started ==> ghost(w).hdr == old(ghost(w).hdr) && len(ghost(w).hdr["Content-Type"]) == old(len(ghost(w).hdr["Content-Type"]))
 
 // ---- C19 (translator scope): what the handlers report to the statistics collector about a translated request
 //@ ghost var trCount int
